@@ -23,42 +23,32 @@ Proof. unfold strip_inner. rewrite set_alias_twice. apply set_alias_none_strip. 
 
 (* the top node without its alias renders alias-free when its sub-terms are quiet and either the position is not the
    select list, or the top node shields its children from with_alias *)
-Ltac by_consumes c Hwa Hq :=
-  match goal with |- render c ?x = render c (strip_all ?y) =>
-    rewrite (consumes_render x c Hwa eq_refl Hq), (consumes_render (strip_all y) c Hwa eq_refl (strip_quiet y));
-    unfold select_spec; rewrite strip_idem; reflexivity
-  end.
-
-Lemma base_alias_free c t : quiet (set_alias t None) = true -> (wa c = false \/ shields t = true) ->
-  render c (set_alias t None) = render c (strip_all t).
+(* a node without an alias of its own renders the same with and without with_alias: every constructor renders its
+   operands with with_alias=False (39a4740, 55bfddf, f84cf61 and the older Function / Case / ArithmeticExpression code) *)
+Lemma unaliased_wa_irrelevant c t : alias_of t = None -> render c t = render (set_wa c false) t.
 Proof.
-  intros Hq [Hwa | Hsh].
-  - rewrite (quiet_render _ c Hwa Hq). rewrite strip_set_alias. reflexivity.
-  - destruct (wa c) eqn:Hwa; [|rewrite (quiet_render _ c Hwa Hq), strip_set_alias; reflexivity].
-    destruct t; try discriminate Hsh; try reflexivity; cbn [set_alias] in *.
-    + (* TArith *) by_consumes c Hwa Hq.
-    + (* TBasic *) by_consumes c Hwa Hq.
-    + (* TIsNull *) cbn [quiet is_some negb andb] in Hq. cbn [render strip_all].
-      rewrite opc_strip, (quiet_render t (opc SIsNull t (set_wa c false)) (wa_opc_setwa _ _ _) Hq).
-      destruct (render (opc SIsNull t (set_wa c false)) (strip_all t)); [|reflexivity]. cbn [bind]. rewrite opnd_strip. reflexivity.
-    + (* TNotNull *) cbn [quiet is_some negb andb] in Hq. cbn [render strip_all].
-      rewrite opc_strip, (quiet_render t (opc SNotNull t (set_wa c false)) (wa_opc_setwa _ _ _) Hq).
-      destruct (render (opc SNotNull t (set_wa c false)) (strip_all t)); [|reflexivity]. cbn [bind]. rewrite opnd_strip. reflexivity.
-    + (* TCase *) by_consumes c Hwa Hq.
-    + (* TFunc *) by_consumes c Hwa Hq.
+  intros Ha. destruct t; cbn [alias_of] in Ha; subst; try reflexivity;
+    try (cbn [render]; rewrite ?set_wa_idem; cbn [wa set_wa]; destruct (wa c); reflexivity).
 Qed.
 
-Theorem inner_alias_free c t : quiet (set_alias t None) = true -> (wa c = false \/ shields t = true) ->
-  render c t = render c (strip_inner t).
+(* the top node without its alias renders alias-free when its sub-terms are quiet -- in EVERY position *)
+Lemma base_alias_free c t : quiet (set_alias t None) = true ->
+  render c (set_alias t None) = render c (strip_all t).
 Proof.
-  intros Hq Hpos. rewrite (render_alias_spec c t), (render_alias_spec c (strip_inner t)). unfold behaviour_spec.
+  intros Hq.
+  assert (A : alias_of (set_alias t None) = None) by (destruct t; reflexivity).
+  rewrite (unaliased_wa_irrelevant c _ A), (quiet_render _ (set_wa c false) eq_refl Hq), strip_set_alias.
+  symmetry. apply unaliased_wa_irrelevant, alias_of_strip.
+Qed.
+
+Theorem inner_alias_free c t : quiet (set_alias t None) = true -> render c t = render c (strip_inner t).
+Proof.
+  intros Hq. rewrite (render_alias_spec c t), (render_alias_spec c (strip_inner t)). unfold behaviour_spec.
   rewrite behaviour_strip_inner, alias_of_strip_inner, strip_inner_none.
   assert (R : reach_q c (strip_inner t) = reach_q c t /\ reach_aq c (strip_inner t) = reach_aq c t)
     by (unfold reach_q, reach_aq; rewrite behaviour_strip_inner; auto).
   destruct R as [-> ->].
-  rewrite (base_alias_free c t Hq Hpos).
-  assert (S : render c (strip_all t) = render c (set_alias (strip_all t) None)) by (rewrite set_alias_none_strip; reflexivity).
-  reflexivity.
+  rewrite (base_alias_free c t Hq). reflexivity.
 Qed.
 
 (* function arguments: Function.get_function_sql renders them with with_alias=False in every position *)
